@@ -235,7 +235,7 @@ Qed.
 (* X._apply accepted the state  =>  khi . density = 0 on every fibre; i.e. a kinetic matrix that does not
    conserve the state's equilibrium densities yields the error token *)
 Theorem x_apply_rejects (o : xop S) (s : smN S) sh d : x_apply S o s = XOk S sh d ->
-  forall b, In b (all_idx (set_at (x_ax S o) 1 (s_shape S s))) ->
+  forall b, In b (all_idx (cons_shape S o s)) ->
   forall i, (i < nth (x_ax S o) (x_shape S o) 0)%nat ->
   ksum (nth (x_ax S o) (x_shape S o) 0) (fun j =>
      get S (fst (x_khi S o)) (snd (x_khi S o))
@@ -253,7 +253,7 @@ Theorem x_apply_conserve_error (o : xop S) (s : smN S) :
      (fun i j => get S (fst (x_khi S o)) (snd (x_khi S o))
          (firstn (length (removelast (fst (x_khi S o)))) (set_at (x_ax S o) i b) ++ [j]))
      (fun j => get S (s_shape S s) (s_dens S s) (set_at (x_ax S o) j b)))
-     (all_idx (set_at (x_ax S o) 1 (s_shape S s))) = false ->
+     (all_idx (cons_shape S o s)) = false ->
   x_apply S o s = XErrConserve S.
 Proof. unfold x_apply. intros ->. reflexivity. Qed.
 
